@@ -11,6 +11,7 @@
 (*     size; each is printed and replayed into the llgo-compiled           *)
 (*     interpreter, whose log is judged by FiniteMapTrace.                 *)
 (* Script tokens [o, a]:  M make . I/D/G/H key a . L len . C clear .       *)
+(*   W write to the variable pointer key a points to .                     *)
 (*   RS loop starts . Y the loop produces one more entry . RE the loop ran *)
 (*   to completion . RB break . F (first token only) make + insert keys    *)
 (*   1,2,3 with values 101,102,103.                                        *)
@@ -25,8 +26,21 @@ CONSTANTS KU,       \* sequence of 3 keys: the universe
 KU_int == << [ty |-> "int", x |-> "4"], [ty |-> "int", x |-> "5"], [ty |-> "int", x |-> "6"] >>   \* three plain keys (also replayed as string, [2]int and struct keys)
 KU_f64 == << [ty |-> "float64", x |-> "+0"], [ty |-> "float64", x |-> "-0"], [ty |-> "float64", x |-> "NaN"] >>
 KU_any == << [ty |-> "int", x |-> "1"], [ty |-> "int64", x |-> "1"], [ty |-> "[]int", x |-> "0"] >>
-KU_anyc == << [ty |-> "complex64", x |-> "+0,-0", re |-> "+0", im |-> "-0"], [ty |-> "complex64", x |-> "-0,-0", re |-> "-0", im |-> "-0"],
-             [ty |-> "complex64", x |-> "1,+0", re |-> "1", im |-> "+0"] >>   \* two spellings of one complex key, and another key
+P(ty, x, fp, rest) == [ty |-> ty, x |-> x, fp |-> fp, rest |-> rest]
+KU_anyc == << P("complex64", "+0,-0", <<"+0", "-0">>, ""), P("complex64", "-0,-0", <<"-0", "-0">>, ""),
+             P("complex64", "1,+0", <<"1", "+0">>, "") >>                      \* two spellings of one complex key, and another key
+\* NaN / signed zeros inside complex numbers and aggregates (the key types map[complex128], map[struct{c complex64; i int32}],
+\* map[[2]float32] of the interpreter)
+KU_c128  == << P("complex128", "+0,-0", <<"+0", "-0">>, ""), P("complex128", "-0,-0", <<"-0", "-0">>, ""),
+              P("complex128", "NaN,+0", <<"NaN", "+0">>, "") >>                \* one key spelled twice, NaN in the real part
+KU_c128i == << P("complex128", "+0,NaN", <<"+0", "NaN">>, ""), P("complex128", "-0,b3ff0000000000000", <<"-0", "b3ff0000000000000">>, ""),
+              P("complex128", "+0,b3ff0000000000000", <<"+0", "b3ff0000000000000">>, "") >>   \* NaN in the imaginary part; -0+1i = +0+1i
+KU_cst   == << P("cstruct", "-0,+0;0", <<"-0", "+0">>, "0"), P("cstruct", "+0,+0;0", <<"+0", "+0">>, "0"),
+              P("cstruct", "+0,NaN;1", <<"+0", "NaN">>, "1") >>
+\* keys of an interface type with a method: two pointer-shaped dynamic types sharing one pointee, and an integer
+KU_ifc   == << [ty |-> "*cell", x |-> "1"], [ty |-> "pbox", x |-> "1"], [ty |-> "ival", x |-> "1"] >>
+KU_a2f   == << P("[2]float32", "NaN,+0", <<"NaN", "+0">>, ""), P("[2]float32", "b3f800000,-0", <<"b3f800000", "-0">>, ""),
+              P("[2]float32", "b3f800000,+0", <<"b3f800000", "+0">>, "") >>
 KU_anyf == << [ty |-> "float64", x |-> "-0"], [ty |-> "wrap/float64", x |-> "+0"], [ty |-> "wrap/[]int", x |-> "0"] >>
 
 VARIABLES script, pre, wit,
@@ -53,7 +67,7 @@ Init ==
   /\ it = [i \in {} |-> 0]
   /\ \/ pre = 0 /\ script = <<>> /\ isnil = TRUE /\ m = Empty /\ nans = {} /\ nextid = 1
      \/ /\ pre = 1 /\ script = <<T("F", 0)>> /\ isnil = FALSE /\ m = PreM /\ nextid = Len(KU) + 1
-        /\ nans = {[ty |-> KU[j].ty, e |-> NaNName(j)] : j \in {j \in K : IsNaN(KU[j])}}
+        /\ nans = {[ty |-> KU[j].ty, x |-> KU[j].x, e |-> NaNName(j)] : j \in {j \in K : IsNaN(KU[j])}}
 
 InLoop == DOMAIN it # {}
 Push(t) == script' = Append(script, t)
@@ -79,6 +93,9 @@ Mutate ==
        /\ See(Flag(r = "ok" /\ InLoop /\ Has(KU[j]) /\ \E i \in DOMAIN it : Ent(KU[j]) \in it[i].need, "delete_before_yield")
               \cup Flag(r = "ok" /\ InLoop /\ Has(KU[j]) /\ \E i \in DOMAIN it : Ent(KU[j]) \in it[i].yielded, "delete_after_yield")
               \cup Flag(r = "ok" /\ IsNaN(KU[j]) /\ nans # {}, "nan_not_deleted"))
+  \/ \E j \in K :
+       /\ KU[j].ty \in PtrTy /\ Poke(KU[j]) /\ Push(T("W", j)) /\ UNCHANGED born
+       /\ See(Flag(Has(KU[j]), "pointee_written_of_present_key"))
   \/ Clear("ok") /\ Push(T("C", 0)) /\ See(Flag(InLoop /\ Size > 0, "clear_in_loop")) /\ born' = {}
   \/ ~InLoop /\ IterStart(1) /\ Push(T("RS", 0)) /\ See({}) /\ born' = {}
 
